@@ -359,6 +359,14 @@ func c02Trees(c *Ctx) []gnode {
 		{T: "cond", Kw: "p", Op: 4, Paren: true, Enc: 1, Kids: []gnode{lf("q")}}, {T: "cond", Kw: "p", Op: 5, NoPad: true, Paren: true, Kids: []gnode{lf("q")}},
 		cond("e", 1, lf(""))}
 	var trees []gnode
+	// (0) every Go numeric kind, bool and a few float shapes as leaves and as Condition expressions
+	for _, v := range []any{int8(-8), int16(-300), int32(70000), int64(-1 << 40), uint(7), uint8(200), uint16(65535), uint32(1 << 31), uint64(1 << 63), float32(1.5), float32(1e10), 1e21, 1e-7, -0.5, 100000.0, 1234567.0,
+		complex64(complex(1, -2)), complex(0.5, 3), false, 0, -12} {
+		for _, k := range kinds {
+			trees = append(trees, gnode{T: "stack", Kind: k, Kids: []gnode{{T: "leaf", V: v}, lf("t")}}, gnode{T: "stack", Kind: k, NoPad: true, Enc: 1, Kids: []gnode{{T: "leaf", V: v}}})
+		}
+		trees = append(trees, gnode{T: "stack", Kind: "AND", Kids: []gnode{cond("n", 4, gnode{T: "leaf", V: v})}})
+	}
 	// (1) every root configuration x every kind over leaf content (1 and 2 leaves)
 	for _, k := range kinds {
 		for _, cf := range c02Cfgs(k, true) {
